@@ -601,11 +601,20 @@ def quietE : ES → GExpr → Bool
   | st, .sh e _ _ =>
     quietE st e && (match genE () (fun _ => ()) st e with | some (_, t, s1) => !shSave s1 t | Option.none => false)
 
-/-- the value of a tree in a state (the accumulator after its code ran) -/
-def treeVal (L : Layout) (σ : SrcSt) (e : GExpr) : Byte :=
+/-- running the code of a tree whose value goes to the accumulator: (value, state it leaves) -/
+def treeRun (L : Layout) (σ : SrcSt) (e : GExpr) : Byte × SrcSt :=
   match evalE L σ 0 {} e with
-  | some ((_, a'), .acc, _) => a'
-  | _ => 0
+  | some ((σ', a'), .acc, _) => (a', σ')
+  | _ => (0, σ)
+
+/-- the value of a tree in a state (the accumulator after its code ran) -/
+def treeVal (L : Layout) (σ : SrcSt) (e : GExpr) : Byte := (treeRun L σ e).1
+
+/-- the scratch cell is free after the tree's code (a comparison with X / Y parks the tree's value there) -/
+def GExpr.tmpFree (e : GExpr) : Bool :=
+  match genE () (fun _ => ()) {} e with
+  | some (_, .acc, st') => !st'.tmpU
+  | _ => false
 
 def GExpr.topArithm : GExpr → Bool
   | .bin _ _ _ => true
